@@ -27,7 +27,7 @@ PROPS = {
     "C07": ["contracts.c07_printers"],
     "C08": ["contracts.c08_parser"],
     "C09": ["contracts.c08_parser", "contracts.c09_roundtrip"],
-    "C10": ["contracts.c10_rewriters"],
+    "C10": ["contracts.c10_rewriters", "contracts.c10_qelim"],
     "C11": ["contracts.c11_cnf"],
     "C12": ["contracts.c12_oracles"],
     "C13": ["contracts.c13_logics"],
